@@ -63,6 +63,11 @@ def r08_1(ctx):
         if not ctx.check(len(cs) == 1, R, key + '|arm %s calls %s' % (v, meth), b.loc(), '%s -> self.%s(..)' % (v, meth), 'the %s arm calls %s %d times, expected once' % (v, meth, len(cs))):
             continue
         bi, ct = cs[0]
+        stop = an.cfg.ipdom(m.bb)
+        skips = stop is not None and bi in region and an.cfg.can_reach(m.arms[v], [stop], removed=[bi])
+        others = sorted(set(d.split('::')[-1] for bi2, d, ct2 in calls_in(ctx, b, region) if d and d.startswith(DT) and d.split('::')[-1] in ('line_to', 'quad_to', 'cubic_to', 'move_to') and d != DT + meth))
+        ctx.check(not skips and not others, R, key + '|arm %s always and only calls %s' % (v, meth), call_line(b, bi), 'on every path through the arm, and no other drawing op',
+                  'the %s arm %s: the op is not handed on as the op it is for every input (a curve replaced by a line, or dropped, on a condition)' % (v, ('can be left without calling %s' % meth) if skips else ('also calls %s' % ', '.join(others))))
         ok = len(ct[2]) == 1 + npts
         for k2 in range(npts):
             if not ok:
@@ -581,6 +586,90 @@ def r01_1(ctx):
             continue
         ctx.check(bi not in bad, R, key + '|%s needs a sorted list' % d.split('::')[-1], call_line(b, bi), '%s reached only with a sorted active list' % d.split('::')[-1],
                   '%s can be reached while the active edge list may be unsorted (after step_edges without sort_edges, around the scan loop): spans would be produced from edges in the wrong x order' % short(d))
+
+
+def r01_13(ctx):
+    """every sample row in the scan window is scanned: inside rasterize's loop, cur_y only ever advances by one, and it
+    advances either after scan_edges has run for the row, or past a row that was looked at and found to have no starting
+    edge while no edge is active (the only rows that cannot produce a span)"""
+    R = 'R01.13'
+    b = ctx.body(RAS + 'rasterize', R)
+    an = ctx.an(b)
+    cfg = an.cfg
+    key = 'rasterizer::Rasterizer::rasterize'
+    inloop = set()
+    for h, bl in cfg.loops().items():
+        inloop |= bl
+    scans = set(bi for bi, d, ct in calls_in(ctx, b) if d == RAS + 'scan_edges')
+    cy = [(a, v, pt) for a, v, pt, kind in an.stores if kind == 'assign' and field_path(a) == (('param', 1), ['cur_y']) and pt[0] in inloop]
+    ctx.floor(R, 'advances of cur_y inside the scan loop', len(cy), 1)
+    for a, v, pt in cy:
+        v0 = strip_all(v)
+        step = None
+        if v0[0] in ('bin', 'ovf') and v0[1] == 'Add':
+            for x, y in ((v0[2], v0[3]), (v0[3], v0[2])):
+                if is_self_field(strip_all(x), 'cur_y') and const_val(strip_all(y)) is not None:
+                    step = const_val(strip_all(y))
+        where = call_line(b, pt[0])
+        k2 = key + '|cur_y advance at bb%d' % sorted(x[2][0] for x in cy).index(pt[0])
+        if not ctx.check(step == 1, R, k2 + ' by one', where, 'cur_y += 1', 'rasterize advances cur_y by %s inside its scan loop: sample rows are passed over, and edges that start on them are never inserted (their polygon loses them)' % (fmt(b, v) if step is None else step)):
+            continue
+        # is the store on a cycle that avoids scan_edges?
+        free = cfg.cycle_through(pt[0], inloop, scans) if hasattr(cfg, 'cycle_through') else True
+        if not free:
+            ctx.ok(R, k2 + ' after scanning', where, 'every cycle through the advance runs scan_edges')
+            continue
+        # then the row must have been found empty: edge_starts[cur_y] is None and active_edges is None dominate the store
+        vg = variant_guards(ctx, b, pt[0])
+        facts = bool_guards(ctx, b, pt[0])
+        def none_of(pred):
+            for scr, adt, vv, sb in vg:
+                if vv == 'None' and pred(strip_all(scr)):
+                    return True
+            for cond, truth, si in facts:
+                c = strip_all(cond)
+                if c[0] == 'call' and isinstance(c[1], str) and c[1].endswith('Option::<T>::is_none') and truth and pred(strip_all(c[2][0])):
+                    return True
+                if c[0] == 'call' and isinstance(c[1], str) and c[1].endswith('Option::<T>::is_some') and not truth and pred(strip_all(c[2][0])):
+                    return True
+            return False
+        def is_row_bucket(t):
+            if t[0] != 'index':
+                return False
+            base, idx = strip_all(t[1]), strip_all(t[2])
+            while idx[0] == 'cast':
+                idx = strip_all(idx[3])
+            return is_self_field(base, 'edge_starts') and is_self_field(idx, 'cur_y')
+        ok = none_of(is_row_bucket) and none_of(lambda t: is_self_field(t, 'active_edges'))
+        ctx.check(ok, R, k2 + ' past an empty row only', where, 'row skipped only when edge_starts[cur_y] and active_edges are both None',
+                  'rasterize advances cur_y on a cycle that does not run scan_edges, without having found both edge_starts[cur_y] and active_edges empty: a sample row that can produce spans is skipped')
+
+
+def r01_14(ctx):
+    """an active edge's position belongs to the stepping code: across the crate, ActiveEdge::fullx (the x of the edge on
+    the current sample row) is stored only by Rasterizer::add_edge (its starting value) and ActiveEdge::step (R08.7
+    decides what step stores).  Anything else that adjusts it — a clamp, a snap — moves the crossing off the line the
+    forward differences follow."""
+    R = 'R01.14'
+    allowed = (RAS + 'add_edge', 'raqote::rasterizer::ActiveEdge::step')
+    n = 0
+    bad = []
+    for q in sorted(ctx.F.bodies):
+        b = ctx.F.body(q)
+        for bi, k2, st in b.statements():
+            if st['k'] != 'assign':
+                continue
+            pr = st['p'].get('pr') or []
+            if pr and pr[-1].get('k') == 'field' and pr[-1].get('n') == 'fullx' and (pr[-1].get('adt') or '').endswith('rasterizer::ActiveEdge'):
+                n += 1
+                if q not in allowed and not any(q.startswith(a + '::{closure') for a in allowed):
+                    bad.append((q, b, st))
+    ctx.floor(R, 'stores to ActiveEdge::fullx', n, 3)
+    if bad:
+        q, b, st = bad[0]
+        ctx.fail(R, short(q) + '|stores the edge position', b.loc(st.get('sp')), '%s stores to ActiveEdge::fullx: the x of an active edge is changed outside add_edge/step, so the crossing on the following sample rows no longer lies on the edge (every later row continues from the adjusted value)' % short(q))
+    else:
+        ctx.ok(R, 'rasterizer::ActiveEdge.fullx|written by add_edge and step only', '-', '%d stores, all in add_edge / ActiveEdge::step' % n)
 
 
 def r01_2(ctx):
@@ -1230,6 +1319,58 @@ def r01_12(ctx):
             bad.append(fmt(b, t) if t is not None else d.kind)
     ctx.check(not bad and bool(incs), R, key + '|row advanced only by stepping', b.loc(), 'row += 1 only in a loop that calls e.step(row) on every iteration',
               'the insertion row is changed without stepping the edge (%s): an edge (in particular a curve edge, whose step() also advances its segment state) entering from above the surface arrives at row 0 with the wrong x and stale stepping state' % (bad or 'no stepping loop found'))
+
+
+def r08_8(ctx):
+    """a curve is never judged by its end points alone: where the fill path receives a curve (DrawTarget::quad_to,
+    cubic_to, add_quad; Rasterizer::add_edge for the x axis — edges are monotonic in y only), no branch is decided by a
+    comparison that reads the curve's end points but none of its control points.  The curve leaves the chord by as much
+    as its control points say, so such a test cannot tell whether the curve is empty, off the surface or flat."""
+    R = 'R08.8'
+    def pts_param(ks):
+        # a parameter, read directly or (when the function reassigns it, e.g. to order the end points) as its local
+        return lambda x: x[0] in ('param', 'mem', 'phi') and len(x) >= 2 and x[1] in ks
+    def idx_of(ks):
+        def f(x):
+            if x[0] in ('index', 'cidx') and strip_all(x[1]) == ('param', 2):
+                i = const_val(strip_all(x[2])) if x[0] == 'index' and isinstance(x[2], tuple) else (x[2] if x[0] == 'cidx' else None)
+                return i in ks
+            return False
+        return f
+    cur = lambda x: x[0] == 'field' and x[2] == 'current_point' and x[3] == 'raqote::draw_target::DrawTarget'
+    def axis_x(pred):
+        return lambda x: x[0] == 'field' and x[2] == 'x' and pred(strip_all(x[1]))
+    table = [
+        (DT + 'quad_to', [pts_param({3}), cur], [pts_param({2})], 'the quadratic'),
+        (DT + 'cubic_to', [pts_param({4}), cur], [pts_param({2, 3})], 'the cubic'),
+        (DT + 'add_quad', [idx_of({0, 2})], [idx_of({1})], 'the quadratic'),
+        (RAS + 'add_edge', [axis_x(pts_param({2, 3}))], [axis_x(pts_param({5}))], 'a curve edge (x axis)'),
+    ]
+    n = 0
+    for q, ends, ctrls, what in table:
+        b = ctx.body(q, R)
+        an = ctx.an(b)
+        bad = None
+        nsw = 0
+        for si, t in b.terminators('switch'):
+            if si not in an.cfg.reach or t.get('ty') != 'bool':
+                continue
+            c = an.term_at(si, len(b.blocks[si]['st']), t['o'])
+            nsw += 1
+            reads_end = reads_ctrl = False
+            for x in subterms(c):
+                if any(p(x) for p in ends):
+                    reads_end = True
+                if any(p(x) for p in ctrls):
+                    reads_ctrl = True
+            # only comparisons of coordinates count (not e.g. a flag)
+            cmpish = any((x[0] == 'bin' and x[1] in ('Eq', 'Ne', 'Lt', 'Le', 'Gt', 'Ge')) or (x[0] == 'call' and isinstance(x[1], str) and x[1].split('::')[-1] in ('eq', 'ne', 'lt', 'le', 'gt', 'ge', 'approx_eq')) for x in subterms(c))
+            if reads_end and not reads_ctrl and cmpish and bad is None:
+                bad = (si, c)
+        n += 1
+        ctx.check(bad is None, R, short(q) + '|no decision on the end points alone', call_line(b, bad[0]) if bad else b.loc(), '%d branches, none decided by the end points without the control points' % nsw,
+                  '%s branches on %s, which reads the end points of %s but not its control points: the curve bulges away from its chord by what the control points say (a cubic from a point back to itself encloses area; a curve whose ends are off the surface can reach into it)' % (short(q), fmt(b, bad[1]) if bad else '', what))
+    ctx.floor(R, 'curve receivers', n, 4)
 
 
 def r08_6(ctx):
